@@ -369,17 +369,31 @@ func (c *checker) runAll(phaseIdx int, jobs []job, workers int, budget time.Dura
 	}
 }
 
+// tour reports whether p belongs to the small, diverse subset that runs first,
+// so that a run cut short by the time budget has still exercised every
+// operator variant, every chain of the tier and every shape once: the programs
+// over the representative data set (chunk+1 rows, colliding keys, 3 shards)
+// and the large Cogroup inputs.
+func tour(p refeval.Program) bool {
+	s := p.Src
+	return s.Rows > 128 || s.Rows == refeval.Chunk+1 && s.Keys == refeval.KeysCollide && s.Shards == 3
+}
+
 func jobsOf(ps []refeval.Program, seed int64) []job {
 	jobs := make([]job, 0, 2*len(ps))
-	for _, p := range ps {
-		jobs = append(jobs, job{p, 1}, job{p, 4})
+	for _, first := range []bool{true, false} {
+		for _, p := range ps {
+			if tour(p) == first {
+				jobs = append(jobs, job{p, 1}, job{p, 4})
+			}
+		}
 	}
 	// VERIF_SEED only rotates the order within the (complete) space; keep
 	// simplest-first by rotating inside blocks of equal chain length.
 	if seed != 0 {
 		start := 0
 		for i := 1; i <= len(jobs); i++ {
-			if i == len(jobs) || len(jobs[i].p.Ops) != len(jobs[start].p.Ops) || jobs[i].p.Shape != jobs[start].p.Shape {
+			if i == len(jobs) || len(jobs[i].p.Ops) != len(jobs[start].p.Ops) || jobs[i].p.Shape != jobs[start].p.Shape || tour(jobs[i].p) != tour(jobs[start].p) {
 				blk := jobs[start:i]
 				k := int(uint64(seed) % uint64(len(blk)))
 				rot := append(append([]job(nil), blk[k:]...), blk[:k]...)
@@ -402,7 +416,7 @@ type phase struct {
 // children construct identical lists) and the text of the enumeration rule.
 func space(thorough bool, seed int64) ([]phase, []string) {
 	var rule []string
-	budget := 50 * time.Second
+	budget := 90 * time.Second
 	if thorough {
 		budget = 8 * time.Minute
 	}
@@ -432,7 +446,25 @@ func space(thorough bool, seed int64) ([]phase, []string) {
 		ps = append(ps, refeval.Enumerate(2, reduced)...)
 		rule = append(rule, "(b) every well-typed chain of exactly 2 operators over the CORE alphabet (20 operator variants, every kind present) x "+reducedText)
 	}
-	rule = append(rule, "every program is run on the local executor with Parallelism 1 and with Parallelism 4")
+	// (d) Cogroup's merge buffers hold a fixed 128 rows (cogroup.go, not the
+	// chunk size): inputs with more than two buffers of rows in ONE shard, so
+	// that groups straddle a full buffer and its refill.
+	big := refeval.Options{
+		NoShapes: true, MinDepth: 1,
+		Sources: []refeval.Source{{Kind: refeval.SrcConst, Schema: []refeval.Col{refeval.Int, refeval.Int}}},
+		Sizes:   []int{2*128 + 1, 600}, Shards: []int{1, 2},
+		Alphabet: []refeval.Op{{Kind: refeval.OpCogroup, Var: refeval.CgSingle}, {Kind: refeval.OpCogroup, Var: refeval.CgSelf}, {Kind: refeval.OpCogroup, Var: refeval.CgSecond}},
+		Second:   []refeval.Source{{Kind: refeval.SrcConst, Rows: 300, Shards: 1, Keys: refeval.KeysDistinct}},
+	}
+	bigPs := refeval.Enumerate(1, big)
+	for _, p := range bigPs {
+		q := p
+		q.Ops = append(append([]refeval.Op(nil), p.Ops...), refeval.Op{Kind: refeval.OpMap, Var: refeval.MapGroupSum})
+		bigPs = append(bigPs, q)
+	}
+	ps = append(ps, bigPs...)
+	rule = append(rule, "(d) Cogroup:single/self/second (alone and followed by Map:groupsum) over Const<int,int> with 257 and 600 rows x key pattern{equal,distinct,colliding} x shards{1,2} (second input: 300 distinct rows in 1 shard): more than two of Cogroup's fixed 128-row merge buffers per shard")
+	rule = append(rule, "every program is run on the local executor with Parallelism 1 and with Parallelism 4; ORDER: first a tour (every program of the space whose sources have chunk+1 rows, colliding keys and 3 shards, and the programs of (d)), then everything else, each simplest first")
 	phases := []phase{{chunk: refeval.Chunk, jobs: jobsOf(ps, seed), budget: budget}}
 	if thorough {
 		// One run of each depth<=1 program at the real vector size with 129 rows.
